@@ -1859,7 +1859,7 @@ def replay_jobs(ctx, jobs):
 
 
 def run_formats(ctx, workdir):
-    per = ctx.pick(6, 150)
+    per = ctx.pick(6, 120)
     only = os.environ.get("C09_ONLY")
     jobs = []
     for fmt in formats():
